@@ -403,8 +403,26 @@ pub fn minimise(orig: &Scenario, v: &Violation, deadline: Instant) -> (Scenario,
             }
             if !progressed { break; }
         }
+        // ddmin over the remaining items: remove chunks of decreasing size
+        let mut chunk = match &cur.steps[si] { Step::Commit { batch, .. } | Step::OvBuild { batch, .. } | Step::Prepare { batch, .. } => batch.items.len() / 4, _ => 0 };
+        while chunk >= 2 && alive(deadline) {
+            let n = match &cur.steps[si] { Step::Commit { batch, .. } | Step::OvBuild { batch, .. } | Step::Prepare { batch, .. } => batch.items.len(), _ => 0 };
+            let mut start = 0usize;
+            let mut removed_any = false;
+            while start < n && alive(deadline) {
+                let mut c = cur.clone();
+                let mut ok = false;
+                if let Step::Commit { batch, .. } | Step::OvBuild { batch, .. } | Step::Prepare { batch, .. } = &mut c.steps[si] {
+                    if start < batch.items.len() && batch.items.len() > chunk { let end = (start + chunk).min(batch.items.len()); batch.items.drain(start..end); ok = true; }
+                }
+                if !ok { break; }
+                tried += 1;
+                if let Some(c) = try_scen(&c, v, 1, timeout) { cur = c; removed_any = true; } else { start += chunk; }
+            }
+            if !removed_any || chunk > 2 { chunk /= 2; }
+        }
         let n = match &cur.steps[si] { Step::Commit { batch, .. } | Step::OvBuild { batch, .. } | Step::Prepare { batch, .. } => batch.items.len(), _ => 0 };
-        if n <= 12 {
+        if n <= 40 {
             let mut j = n;
             while j > 0 && alive(deadline) {
                 j -= 1;
@@ -449,6 +467,22 @@ fn write_replay(prop: &str, run_seed: u64, scen: &Scenario, v: &Violation, _tier
     });
     std::fs::write(&path, serde_json::to_string_pretty(&doc).unwrap()).unwrap();
     path
+}
+
+/// `nomt-sim minimise <replay-or-scenario.json> [--secs n]`: run it, take the first violation and
+/// shrink the scenario while the same class persists; writes `<file>.min.json`.
+pub fn minimise_file(file: &str, secs: u64) -> i32 {
+    let doc: serde_json::Value = match std::fs::read_to_string(file).ok().and_then(|s| serde_json::from_str(&s).ok()) { Some(d) => d, None => { eprintln!("cannot read {file}"); return 2; } };
+    let scen: Scenario = match serde_json::from_value(if doc.get("scenario").is_some() { doc["scenario"].clone() } else { doc.clone() }) { Ok(s) => s, Err(e) => { eprintln!("bad scenario in {file}: {e}"); return 2; } };
+    let ChildOut::Report(r) = run_scenario_child(&scen, "min0", Duration::from_secs(600)) else { eprintln!("the scenario did not finish"); return 2; };
+    let Some(v) = r.violations.first().cloned() else { println!("no violation to minimise"); return 0; };
+    println!("minimising {}:{} ({})", v.property, v.class, v.detail.chars().take(200).collect::<String>());
+    let (min, tried) = minimise(&scen, &v, Instant::now() + Duration::from_secs(secs));
+    let out = format!("{file}.min.json");
+    let docm = json!({ "property": v.property, "violation": v.class, "first_divergence": v.detail, "step": v.step, "run_seed": scen.run_seed, "minimisation": { "candidates_tried": tried, "steps_before": scen.steps.len(), "steps_after": min.steps.len() }, "scenario": min });
+    std::fs::write(&out, serde_json::to_string_pretty(&docm).unwrap()).unwrap();
+    println!("wrote {out} ({tried} candidates)");
+    0
 }
 
 pub fn replay(file: &str) -> i32 {
